@@ -114,6 +114,39 @@ def login_from_callback(args):
         w.close()
 
 
+def second_challenge(args):
+    """Connected clients transmit their challenge response again as a fresh, correctly sealed message (at several points of their life, also twice in a
+    row and together with application data): the connect event was raised once and stays raised once, messages keep being attributed, disconnect comes once."""
+    seed, gap = args
+    import srvworld as SW
+    w = SW.ServerWorld(seed=seed, conn_timeout=2.0)
+    try:
+        for c in (1, 2, 3):
+            w.add_client(c, ("10.8.0.%d" % c, 7300 + c))
+        for t in range(40):
+            w.tick()
+        for rnd_ in range(4):
+            for c in (1, 2, 3):
+                if w.clients[c]["cl"].connected():
+                    w.uniq += 1
+                    if c != 2:
+                        w.clients[c]["cl"].send(w.aid(w.clients[c]["addr"]).to_bytes(4, "big") + b"DATA" + w.uniq.to_bytes(4, "big") + b"before", retry=-1)
+                    w.resend_challenge(c)
+                    if c == 3:
+                        w.resend_challenge(c)
+                    w.uniq += 1
+                    w.clients[c]["cl"].send(w.aid(w.clients[c]["addr"]).to_bytes(4, "big") + b"DATA" + w.uniq.to_bytes(4, "big") + b"after", retry=-1)
+                for t in range(gap):
+                    w.tick()
+        w.client_disconnect(1)
+        for t in range(30):
+            w.tick()
+        w.shutdown()
+        return w.ev
+    finally:
+        w.close()
+
+
 def run(ctx):
     ctx.level = "model_checking"
     ctx.rule = ("events of recorded executions of the real server loop judged by TLC against Trace_Server; distinct = handler events + datagrams in/out; "
@@ -127,7 +160,7 @@ def run(ctx):
     except ImportError:
         ctx.note("design model Server.tla not built yet")
     SJ.run_scenarios(ctx, "C10", [
-        dict(name="many-clients", n=8 if q else 60, nticks=1500 if q else 4000, kw=dict(nclients=5, p_raise=0.03, reuse_addr=0.4)),
+        dict(name="many-clients", n=8 if q else 60, nticks=1500 if q else 4000, kw=dict(nclients=5, p_raise=0.03, reuse_addr=0.4, p_rechal=0.004)),
         dict(name="many-clients-early-shutdown", n=6 if q else 40, nticks=1500, kw=dict(nclients=8, p_raise=0.02, p_connect=0.05, stop_at=None)),
         dict(name="forty-clients", n=1 if q else 6, nticks=1200 if q else 3000, kw=dict(nclients=40, p_raise=0.01, p_connect=0.01, p_send=0.05)),
     ] + [dict(name="shutdown-at-%d" % t, n=1, nticks=t + 1, kw=dict(nclients=6, p_connect=0.08, stop_at=t)) for t in ((40, 90, 200, 333) if q else range(20, 620, 15))])
@@ -144,6 +177,10 @@ def run(ctx):
     with ProcessPoolExecutor(min(8, len(lj))) as ex:
         ltr = list(ex.map(login_from_callback, lj))
     SJ.judge_and_report(ctx, "C10", ltr, ["first request sent from the connect callback, handler.connect %s" % ("raises" if j[1] else "returns") for j in lj])
+    cj = [(ctx.seed + g, g) for g in ((1, 7) if q else (1, 2, 3, 7, 20, 45))]
+    with ProcessPoolExecutor(min(8, len(cj))) as ex:
+        ctr = list(ex.map(second_challenge, cj))
+    SJ.judge_and_report(ctx, "C10", ctr, ["connected clients transmit their challenge response again (fresh message), %d ticks apart" % j[1] for j in cj])
     jobs = [(ctx.seed + i, 700 if q else 2500) for i in range(3 if q else 16)]
     with ProcessPoolExecutor(min(8, len(jobs))) as ex:
         traces = list(ex.map(token_collisions, jobs))
